@@ -99,7 +99,7 @@ def denotes_own_socket(case) -> bool:
 
 
 def _srv_field(s):
-    return s["tp"] + "/" + ",".join(f"{hx(h.encode())}:{p}" for h, p in s["addrs"])
+    return s["tp"] + ("/" + ",".join(f"{hx(h.encode())}:{p}" for h, p in s["addrs"]) if s["addrs"] else "")
 
 
 def _keyed(pairs):
@@ -132,6 +132,32 @@ REAL_SPECS = ["regular@127.0.0.1:0", "socks5@127.0.0.2:0", "reverse:http://examp
               "upstream:http://example.com:3128@0", "reverse:udp://example.com:53@127.0.0.5:0", "dns@127.0.0.4:0"]
 REAL_DESTS = ["localhost", "LOCALHOST.", "127.0.0.1", "127.0.0.2", "127.9.8.7", "::1", "::ffff:127.0.0.1", "0.0.0.0", "::",
               "127.0.0.3", "::FFFF:7F00:5", "example.com", "192.168.1.5", "128.0.0.0"]
+
+
+RESOLVER_TAG = "[resolver-only spelling]"
+
+
+def resolver_view(dest: str):
+    """what the resolver makes of a destination that neither is `localhost` (ASCII case / trailing dot) nor parses with
+    `ipaddress`: numeric legacy forms via getaddrinfo(AI_NUMERICHOST) (no DNS, no network: `127.1`, `2130706433`,
+    `0x7f.0.0.1`, `0177.0.0.1`, `0`), and names whose IDNA encoding is localhost. Returns the canonical spelling or None."""
+    nh = _norm(dest)
+    if nh == "localhost" or _parse(nh) is not None:
+        return None
+    try:
+        if dest.isascii() and dest and "\0" not in dest:
+            res = socket.getaddrinfo(dest, 80, proto=socket.IPPROTO_TCP, flags=socket.AI_NUMERICHOST)
+            addrs = sorted({r[4][0] for r in res})
+            if len(addrs) == 1 and _parse(addrs[0]) is not None:
+                return addrs[0]
+    except (OSError, UnicodeError, ValueError):
+        pass
+    try:
+        if not dest.isascii() and _norm(dest.encode("idna").decode("ascii")) == "localhost":
+            return "localhost"
+    except (UnicodeError, ValueError):
+        pass
+    return None
 
 
 class _FakeStream:
@@ -310,24 +336,33 @@ TRACE_NAMES = {"hook:server_connect": "hookServerConnect", "hook:server_connect_
 class Check(PropertyCheck):
     prop = "C23"
     design_ref = "§5 C23"
-    level_text = ("Lean theorems spec_implies_blocked (every destination that denotesOwnSocket — same transport incl. modes "
+    level_text = ("Lean theorems: spec_implies_blocked (every destination that denotesOwnSocket — same transport incl. modes "
                   "listening on both, same port, explicit listen address up to case/trailing dot/notation/IPv4-mapping, any "
                   "loopback name or address when listening on loopback or all interfaces, or the wildcard address — is "
-                  "recognised by the model of the fixed Proxyserver.server_connect), blocked_sets_error_and_no_connect "
-                  "(then server.error is the destination-unknown error and open_connection issues server_connect_error "
-                  "and an error completion without ever reaching the socket primitive) and own_socket_never_connected "
-                  "(composition), for ALL destination texts, ports, transports and server lists. Model tied to the real "
-                  "Proxyserver addon run through the real AddonManager and ProxyConnectionHandler.open_connection on the "
-                  "exhaustive product of ~90 destination spellings x 33 listen configurations x 2 transports x same/other "
-                  "port x connect outcome, plus random spellings; the Lean spec is cross-checked against an independent "
-                  "Python statement of the property on every case.")
-    level_note = ("trusted: Lean kernel; the model/implementation tie is differential (exhaustive over the listed spellings, "
-                  "random beyond); ipaddress.ip_address is the C22 parser model (tied differentially there); is_loopback / "
+                  "recognised by the model of Proxyserver.server_connect), blocked_sets_error_and_no_connect, "
+                  "own_socket_never_connected, not_blocked_reaches_socket, the spelling classes one by one, and over HISTORIES: "
+                  "the listener set is state changed by a transcription of Servers.update (instances of kept specs kept, new "
+                  "specs started, the rest dropped, server=False drops all); history_never_connects_to_current_own_socket proves "
+                  "by induction over every history of reconfigurations and connection attempts that an attempt at a socket of the "
+                  "listener set CURRENT at that point never reaches the socket primitive; run_step, new_listener_protected, "
+                  "kept_listener_protected, server_off_no_listeners. resolver_spelling_counterexample records the residual. "
+                  "Tie: the real Proxyserver addon through the real AddonManager and ProxyConnectionHandler.open_connection on "
+                  "~90 spellings x 33 listen configurations x transports x ports x connect outcome, stub-listener histories "
+                  "(per call AND as one stateful `run`), and REAL-listener histories: a Proxyserver with real sockets on "
+                  "loopback reconfigured at run time through the mode/server options (real configure -> Servers.update); the "
+                  "model is given only the OS' answers for instances it considers new and predicts which instances are kept, "
+                  "the listener set after every reconfiguration and the outcome of every attempt.")
+    level_note = ("trusted: Lean kernel; the tie is differential; ipaddress.ip_address is the C22 parser model; is_loopback / "
                   "is_unspecified constants are regenerated from the interpreter (Gen/C23.lean). Host texts are ASCII in the "
-                  "model (str.lower() = ASCII lower-casing); non-ASCII destinations are checked by the oracle only. "
-                  "The statement's spellings are those `ipaddress` parses plus localhost names; resolver-only spellings "
-                  "(`127.1`, `2130706433`, `0x7f.0.0.1`, other names that resolve to loopback) are outside the statement's "
-                  "list and are NOT recognised by the guard. open_connection is modelled only around the server_connect hook.")
+                  "model (str.lower() = ASCII lower-casing); non-ASCII destinations have no model counterpart (model_lines "
+                  "returns None) and are judged by the oracle only. Residual, recorded as finding F-C23b with evidence: spellings "
+                  "only the resolver understands (127.1, 127.0.1, 2130706433, 0x7f.0.0.1, 0177.0.0.1, 0 — "
+                  "getaddrinfo(AI_NUMERICHOST) on this machine returns 127.0.0.1 / 0.0.0.0 for them — and names that IDNA-encode "
+                  "to localhost) are not recognised by the guard; the oracle demands them, known() excuses exactly that class "
+                  "(self-tested with near misses at start-up); names that merely resolve to a loopback address through DNS or "
+                  "/etc/hosts cannot be judged without a resolver and are outside the check. In update() mode specs are keys "
+                  "and assumed distinct (configure rejects duplicate listen addresses); what a new instance binds is an "
+                  "environment parameter. open_connection is modelled only around the server_connect hook.")
     technique = "Lean 4 proof (case analysis over the guard, spec ⊆ implementation) + exhaustive/random model-vs-code correspondence"
     rule = ("exhaustive: every listed destination spelling (localhost case/dot variants, 127/8 addresses, ::1 spellings, "
             "IPv4-mapped loopback, wildcard spellings, near misses, other hosts incl. the listen host in other notations, "
@@ -577,7 +612,74 @@ class Check(PropertyCheck):
                 fails.append(f"{dest!r}:{case['dport']} denotes an own socket but the error is {obs['final_error']!r}")
             elif "completedKilled" not in obs["trace"]:
                 fails.append(f"no error completion for the blocked connection: {obs['trace']}")
+        else:
+            # a spelling only the resolver understands denotes the same socket as its canonical form
+            dest = unhx(case["dest_hex"]).decode("utf-8", "surrogateescape")
+            canon = resolver_view(dest)
+            if canon is not None and denotes_own_socket(dict(case, dest_hex=hx(canon.encode()))) and "socketOpen" in obs["trace"]:
+                fails.append(f"{RESOLVER_TAG} upstream {case['tp']} connection opened to own listening socket "
+                             f"{dest!r}:{case['dport']} (the resolver reads it as {canon!r}; servers {case['servers']})")
         return fails
+
+    # ---------------- recorded finding F-C23b ----------------
+    def known(self, case, obs, failure):
+        import re
+        if "real" in case:
+            return None
+        if "hist" in case:
+            m = re.match(r"call (\d+) of \d+ on one Proxyserver instance: (.*)$", failure, re.S)
+            if not m: return None
+            i = int(m.group(1)) - 1
+            if not (0 <= i < len(case["hist"])) or i >= len(obs.get("steps", [])): return None
+            return self.known(case["hist"][i], obs["steps"][i], m.group(2))
+        # F-C23b: the input is a resolver-only spelling (not localhost, not parseable by ipaddress, but read by
+        # getaddrinfo(AI_NUMERICHOST) / IDNA as an own socket), the guard did not fire, and the failure is exactly the
+        # resolver clause of the oracle
+        if not failure.startswith(RESOLVER_TAG): return None
+        if obs.get("state") != "open" or "socketOpen" not in obs.get("trace", []): return None
+        if obs.get("addon_errors"): return None
+        dest = unhx(case["dest_hex"]).decode("utf-8", "surrogateescape")
+        canon = resolver_view(dest)
+        if canon is None or denotes_own_socket(case): return None
+        if not denotes_own_socket(dict(case, dest_hex=hx(canon.encode()))): return None
+        return "F-C23b"
+
+    def known_selftest(self):
+        A = [{"tp": "tcp", "addrs": [["127.0.0.1", 8080]]}]
+        opened = {"state": "open", "trace": ["hookServerConnect", "socketOpen", "hookServerConnected", "completedOk"],
+                  "addon_errors": [], "final_error": None}
+        blocked = {"state": "blocked", "trace": ["hookServerConnect", "hookServerConnectError", "completedKilled"],
+                   "addon_errors": [], "final_error": DEST_UNKNOWN}
+        w = self._case("127.1", 8080, "tcp", 1, A)
+        res_fail = self.oracle(w, opened)
+        assert len(res_fail) == 1 and res_fail[0].startswith(RESOLVER_TAG), res_fail
+        triples = [
+            (w, opened, res_fail[0], "F-C23b"),                                            # the witness
+            (self._case("2130706433", 8080, "tcp", 1, A), opened, res_fail[0], "F-C23b"),
+            (self._case("ｌocalhost", 8080, "tcp", 1, A), opened, res_fail[0], "F-C23b"),
+            ({"hist": [self._case("example.com", 443, "tcp", 1, A), w]}, {"steps": [opened, opened]},
+             "call 2 of 2 on one Proxyserver instance: " + res_fail[0], "F-C23b"),
+            # same input class, a different failure (other clause of the oracle)
+            (w, opened, "server_connect hook failed: ['Addon error'] open", None),
+            (w, dict(opened, addon_errors=["boom"]), res_fail[0], None),
+            # neighbouring inputs just outside the class, same kind of failure text
+            (self._case("127.0.0.1", 8080, "tcp", 1, A), opened, res_fail[0], None),     # parseable: the guard must fire
+            (self._case("LOCALHOST.", 8080, "tcp", 1, A), opened, res_fail[0], None),
+            (self._case("127.1", 8081, "tcp", 1, A), opened, res_fail[0], None),         # other port: denotes nothing
+            (self._case("1.2.3", 8080, "tcp", 1, A), opened, res_fail[0], None),         # legacy form of a foreign address
+            (self._case("127.0.0.2", 8080, "tcp", 1, A), opened,
+             "upstream tcp connection opened to own listening socket '127.0.0.2':8080", None),
+            ({"hist": [w, self._case("127.0.0.2", 8080, "tcp", 1, A)]}, {"steps": [opened, opened]},
+             "call 2 of 2 on one Proxyserver instance: " + res_fail[0], None),
+        ]
+        for case, obs, failure, want in triples:
+            got = self.known(case, obs, failure)
+            assert got == want, f"known() self-test: {case} / {failure[:60]!r}: got {got}, want {want}"
+        # the plain clauses stay unexcused for the witness class when the guard does fire
+        assert self.oracle(w, blocked) == []
+
+    def setup(self, tier):
+        self.known_selftest()
 
     # ---------------- model tie ----------------
     def model_lines(self, case):
